@@ -256,7 +256,7 @@ def setup_git(rng, root, nodes):
         trees.git(src, "add", ".")
         trees.git(src, "commit", "-q", "-m", "sub")
         # a submodule may well live below subprojects/ (Meson wrap-git): the two exclusions are independent
-        where = rng.choice(["ext/mod", "subprojects/libsub", "subprojects/libsub"])
+        where = rng.choice(["ext/mod", "subprojects/libsub", "subprojects/libsub", "third party/lib", "third party/lib"])
         if os.path.lexists(root / where.split("/")[0]) and not (root / where.split("/")[0]).is_dir():
             where = "ext2/mod"
         r = trees.git(root, "submodule", "add", "-q", str(src), where, check=False)
@@ -282,6 +282,12 @@ def setup_git(rng, root, nodes):
         (root / "manualsub" / "deep" / "n.py").write_text("x\n")
         (root / ".gitmodules").write_text('[submodule "manualsub"]\n\tpath = manualsub\n\turl = https://example.com/x.git\n')
         submods.append("manualsub")
+        if rng.random() < 0.5:
+            (root / "my sub").mkdir(exist_ok=True)
+            (root / "my sub" / "s.py").write_text("x\n")
+            with open(root / ".gitmodules", "a") as fp:
+                fp.write('[submodule "my sub"]\n\tpath = my sub\n\turl = https://example.com/y.git\n')
+            submods.append("my sub")
     return submods
 
 
